@@ -96,8 +96,34 @@ def header_action_table():
     return "Definition header_action_table : list (str * hkind) :=\n  [" + items + "].\n"
 
 
+# ---------------------------------------------------------------- supported content encodings
+def supported_encodings():
+    src = read("src/filter/encoding/mod.rs")
+    m = re.search(r"pub fn get_encoding_filters\(encoding: &str\) -> Option<\(DecodeFilterBody, EncodeFilterBody\)> \{\s*let supported_encoding = match encoding \{(.*?)\n    \};", src, re.S)
+    if not m:
+        raise TranslatorError("get_encoding_filters match not found in src/filter/encoding/mod.rs")
+    arms = [a.strip() for a in m.group(1).strip().split("\n") if a.strip()]
+    names = []
+    for a in arms:
+        mm = re.fullmatch(r'"((?:[^"\\]|\\.)*)" => SupportedEncoding::(Brotli|Gzip|Deflate),', a)
+        if mm:
+            names.append(unescape_rust(mm.group(1)))
+        elif a == "_ => return None,":
+            continue
+        else:
+            raise TranslatorError(f"get_encoding_filters: unexpected arm {a!r}")
+    if not names:
+        raise TranslatorError("get_encoding_filters: no supported encoding found")
+    # FilterBodyAction::new lowercases the header value before the lookup
+    src2 = read("src/filter/filter_body.rs")
+    if 'content_encoding = Some(header.value.to_lowercase());' not in src2:
+        raise TranslatorError("filter_body.rs: content_encoding is no longer lowercased before get_encoding_filters")
+    return "Definition supported_encodings : list str :=\n  [" + "; ".join(coq_str(n) for n in names) + "].\n"
+
+
 SECTIONS = [
     ("Headers", ["RIO.Headers"], header_action_table),
+    ("Encodings", [], supported_encodings),
 ]
 
 
